@@ -56,6 +56,7 @@ type S struct {
 	Log   *LogCap
 	stop  chan struct{}
 	evCh  chan iobroker.Event
+	evMu  sync.Mutex
 	Evs   []iobroker.Event
 }
 
@@ -133,6 +134,18 @@ func Start(o Opts) (*S, error) {
 	}
 	s.B = b
 	b.AddEventListener(s.evCh)
+	go func() { // never let the broker's dispatcher block on this listener, however long the campaign
+		for {
+			select {
+			case e := <-s.evCh:
+				s.evMu.Lock()
+				s.Evs = append(s.Evs, e)
+				s.evMu.Unlock()
+			case <-s.stop:
+				return
+			}
+		}
+	}()
 	sl := slog.New(s.Log)
 	sv, err := hsrv.New(sl, o.Addr, o.Fdir, o.Tmplf, s.Ich, s.Och, b, o.CertFile, o.CbAddrs, o.IPv6, o.OneShell)
 	if err != nil {
@@ -224,14 +237,9 @@ func (s *S) WaitLine(from int, d time.Duration, f func(opshell.CLine) bool) (int
 
 // Events returns the broker events delivered so far.
 func (s *S) Events() []iobroker.Event {
-	for {
-		select {
-		case e := <-s.evCh:
-			s.Evs = append(s.Evs, e)
-		default:
-			return append([]iobroker.Event(nil), s.Evs...)
-		}
-	}
+	s.evMu.Lock()
+	defer s.evMu.Unlock()
+	return append([]iobroker.Event(nil), s.Evs...)
 }
 
 // Stop shuts the server down.
